@@ -199,7 +199,8 @@ def project(cs, with_inode=False, with_paths=False):
         files = []
         for f in d["files"]:
             e = {"sub": enc(f["sub"]), "size": f["size"], "sec": f["mtime_sec"], "nsec": f["mtime_nsec"],
-                 "blocks": [(p, st, hx(h)) for (p, st, h) in f["blocks"]]}
+                 # a deprecated NEW block means "changed, the parity holds zeros here": the CHG state with the ZERO value
+                 "blocks": [(p, "CHG" if st == "NEW" else st, hx(h)) for (p, st, h) in f["blocks"]]}
             if with_inode:
                 e["inode"] = f["inode"]
             files.append(e)
